@@ -11,7 +11,11 @@ Correspondence: every random draw of the real run (np.random.randint / np.random
 random.randint / random.choice for directed_configuration_model) is recorded by replacing the module attributes
 the code looks up (no hook in the repo), the draw list is replayed in the Lean model (lean/Hgxv/Model/C13.lean
 through lean/Driver/C13.lean, labels as ranks in sorted order - justified by C13_relabel) on the hyperedge listing
-the object has at the time of the call, and the returned hyperedge list must coincide.  Draws come from the real
+the object has at the time of the call, and the returned hyperedge list must coincide.  A second line per call
+(`cmx` / `dcmx`, Model/C13Ext.lean) hands the entry-point model order= / size= as the caller spelled them (both
+together: ValueError, nothing drawn) and compares its report on every case: node set of the returned OBJECT
+(get_nodes()), number of randint calls (accepted + rejected proposals), of rand calls (coins), directed: draws of
+the source loop / of the target loop, and that no recorded draw is left unused.  Draws come from the real
 generators (seeded), from a biased in-contract source of the harness (i == j, the same pair again, long runs of one
 coin, long streaks of inadmissible pairs) or from a script (exhaustive walk of the draw tree of small inputs).
 
@@ -38,7 +42,8 @@ RULE = ("objects built by histories (constructor list / add_edge / add_edges, 35
         "(ints, huge / negative ints, floats, ints next to floats, strings, numeric strings, 3 tuple families); "
         "undirected: 3-10 nodes, 2-12 hyperedges of sizes 1-5 from 1-3 size classes with forced overlaps and (30 %) "
         "nested hyperedges, n_steps in {0,1,7,50, default}, label in {edge,stub}, detailed in {True,False}, plain / "
-        "size=s / order=s-1 (rarely an absent size: the call raises), several calling styles; directed: 3-9 nodes, 2-10 "
+        "size=s / order=s-1 (rarely an absent size: the call raises; 4 % order AND size: ValueError), several calling "
+        "styles, 12 % with n_clash in {0,2,3} (no effect for these labels); directed: 3-9 nodes, 2-10 "
         "hyperedges, mostly disjoint non-empty sides; 25 % of the inputs are sessions of 2-3 calls on one object with "
         "edits in between (swap of one hyperedge = same count, add, remove, rebuilt object, none; edits of the returned "
         "object); 3 (quick) / 6 "
@@ -407,6 +412,13 @@ def gen_params(rng, edges):
               "detailed": rng.random() < 0.55, **variant}
     if rng.random() < 0.03:
         del params["n_steps"]        # the default (1000 steps)
+    if rng.random() < 0.12:
+        # n_clash is documented for label='vertex' only but accepted and passed through for every label: no effect here
+        params["n_clash"] = rng.choice([0, 0, 2, 3])
+    if rng.random() < 0.04:
+        # order AND size: the entry point refuses (ValueError) whatever the values are (also order=0 / size=0)
+        params["order"] = rng.choice([0, 1, 2, max(0, params.get("order", 1))])
+        params["size"] = rng.choice([0, 1, params["order"] + 1, params.get("size", 2)])
     return params
 
 
@@ -925,7 +937,8 @@ def call_undirected(h, params, style):
     from hypergraphx.generation.configuration_model import configuration_model
     p = dict(params)
     if style == 1:      # everything positional
-        return configuration_model(h, p.get("n_steps", 1000), p["label"], p.get("order"), p.get("size"), 1, p["detailed"])
+        return configuration_model(h, p.get("n_steps", 1000), p["label"], p.get("order"), p.get("size"), p.get("n_clash", 1),
+                                   p["detailed"])
     if style == 2:      # keywords, the absent one of size / order spelled as None
         p.setdefault("size", None)
         p.setdefault("order", None)
@@ -951,6 +964,7 @@ def check_undirected(ctx, drv, W, case, op):
     except Exception as e:  # noqa: BLE001
         ctx.disagree(case, f"could not read the input hypergraph: {type(e).__name__}: {e}")
         return None
+    both = "order" in params and "size" in params      # refused by the entry point: ValueError, nothing is drawn
     size = params.get("size", params["order"] + 1 if "order" in params else None)
     n_steps = params.get("n_steps", 1000)
     style = crc("style", sorted(params.items()), seed) % 4
@@ -974,7 +988,13 @@ def check_undirected(ctx, drv, W, case, op):
     # ---- property oracles on the implementation
     nontrivial = False
     in_scope = len(E_in) >= 2
-    if status == "ok":
+    if both:
+        ctx.count("undirected_order_and_size")
+        if status != "exc" or not str(out).startswith("ValueError"):
+            ctx.disagree(case, f"order= and size= together must be refused with ValueError; observed {status}: {str(out)[:80]}")
+        if rec.log:
+            ctx.disagree(case, f"order= and size= together: {len(rec.log)} random draws before the refusal")
+    elif status == "ok":
         bad = oracle_undirected(E_in, E_out, params["detailed"], size) if in_scope else []
         if not bad and in_scope and (extra.get("api") or ctx.rng.random() < 0.5):
             st2, bad2 = guarded(lambda: api_oracle_undirected(h, out, params["detailed"]))
@@ -1023,10 +1043,25 @@ def check_undirected(ctx, drv, W, case, op):
     line = "cm {} {} {} {} {} {}".format(
         "e" if params["label"] == "edge" else "s", 1 if params["detailed"] else 0,
         -1 if size is None else size, n_steps, hgxv.enc_lists(E_in_r), hgxv.enc_lists(draws))
-    ans = drv.ask(line)
+    # the entry point + report model (Model/C13Ext.lean): order / size as the caller spelled them
+    o_wire, s_wire = params.get("order", -1), params.get("size", -1)      # -1 = not given
+    if not both and "order" in params and params["order"] < 0:
+        # order=-1 (the hyperedges of size 0 of an input with an empty hyperedge): the entry-point model has Nat-typed
+        # order / size; the harness resolves this one spelling itself (size = order + 1)
+        o_wire, s_wire = -1, params["order"] + 1
+    linex = "cmx {} {} {} {} {} {} {}".format(
+        "e" if params["label"] == "edge" else "s", 1 if params["detailed"] else 0,
+        o_wire, s_wire, n_steps, hgxv.enc_lists(E_in_r), hgxv.enc_lists(draws))
+    if both:
+        ansx = drv.ask(linex)
+        if ansx != "raise":
+            ctx.disagree(case, f"order= and size= together: model (cmCall) answers {ansx[:80]!r}, expected raise")
+        return None
+    ans, ansx = drv.batch([line, linex])
+    ctx.count("report_lines")
     if status != "ok":
-        if ans != "raise":
-            ctx.disagree(case, f"implementation raised ({out}); model answers {ans[:80]!r}")
+        if ans != "raise" or ansx != "raise":
+            ctx.disagree(case, f"implementation raised ({out}); model answers {ans[:80]!r} / report {ansx[:80]!r}")
         return None
     if not ans.startswith("ok "):
         ctx.disagree(case, f"implementation returned {real}; model answers {ans!r}")
@@ -1035,6 +1070,30 @@ def check_undirected(ctx, drv, W, case, op):
     if model != real:
         ctx.disagree(case, f"returned hyperedges differ: implementation {real}, model {model}")
         return None
+    # report: same listing, node set of the returned OBJECT, calls of randint / rand, nothing drawn beyond
+    tx = ansx.split(" ")
+    if tx[0] != "ok" or len(tx) != 6:
+        ctx.disagree(case, f"implementation returned {real}; report model answers {ansx[:120]!r}")
+        return None
+    if tx[1] != ans[3:]:
+        ctx.disagree(case, f"report model lists {tx[1]!r}, model {ans[3:]!r} (C13_report_refines)")
+        return None
+    try:
+        nodes_real = sorted(rank[x] for x in out.get_nodes())
+    except Exception as e:  # noqa: BLE001
+        nodes_real = f"unreadable ({type(e).__name__}: {e})"
+    n_randint = sum(1 for ent in rec.log if ent[0] == "randint")
+    n_rand = len(rec.log) - n_randint
+    want = (hgxv.dec_list(tx[2]), int(tx[3]), int(tx[4]), int(tx[5]))
+    got = (nodes_real, n_randint, n_rand, 0)
+    if want != got:
+        ctx.disagree(case, "report differs (node set of the returned object, calls of randint, calls of rand, unused "
+                           f"draws): implementation {got}, model {want}")
+        return None
+    if n_randint > n_steps:
+        ctx.count("rejected_proposals", n_randint - n_steps)
+    if isinstance(nodes_real, list) and len(nodes_real) < len(rank):
+        ctx.count("isolated_nodes_not_carried_over")
     # the model's observables (degK, deg of Model/C13.lean) are the property's degrees
     if real and ctx.rng.random() < 0.25:
         x = ctx.rng.choice(sorted({v for e in real for v in e}))
@@ -1138,10 +1197,11 @@ def check_directed(ctx, drv, W, case, op):
         return None
     line = "dcm {} {} {}".format(hgxv.enc_lists([s for s, _ in E_in_r]), hgxv.enc_lists([t for _, t in E_in_r]),
                                  hgxv.enc_list(draws))
-    ans = drv.ask(line)
+    ans, ansx = drv.batch([line, "dcmx" + line[3:]])
+    ctx.count("report_lines")
     if status != "ok":
-        if ans != "raise":
-            ctx.disagree(case, f"implementation raised ({out}); model answers {ans[:80]!r}")
+        if ans != "raise" or ansx != "raise":
+            ctx.disagree(case, f"implementation raised ({out}); model answers {ans[:80]!r} / report {ansx[:80]!r}")
         return None
     toks = ans.split(" ")
     if toks[0] != "ok" or len(toks) != 3:
@@ -1150,6 +1210,29 @@ def check_directed(ctx, drv, W, case, op):
     model = sorted(zip((tuple(s) for s in hgxv.dec_lists(toks[1])), (tuple(t) for t in hgxv.dec_lists(toks[2]))))
     if model != real:
         ctx.disagree(case, f"returned hyperedges differ: implementation {real}, model {model}")
+        return None
+    # report (Model/C13Ext.lean): same listing, node set of the returned object, draws of each loop, nothing beyond
+    tx = ansx.split(" ")
+    if tx[0] != "ok" or len(tx) != 7 or tx[1:3] != toks[1:3]:
+        ctx.disagree(case, f"report model answers {ansx[:120]!r}, model {ans[:120]!r} (C13_report_refines)")
+        return None
+    try:
+        nodes_real = sorted(rank[x] for x in out.get_nodes())
+    except Exception as e:  # noqa: BLE001
+        nodes_real = f"unreadable ({type(e).__name__}: {e})"
+    # the source loop makes 2 * 10m calls of randint; everything before the (20m+1)-th call of randint is its share
+    seen, cut = 0, len(rec.log)
+    for pos, ent in enumerate(rec.log):
+        if ent[0] == "randint":
+            seen += 1
+            if seen == 20 * len(E_in) + 1:
+                cut = pos
+                break
+    want = (hgxv.dec_list(tx[3]), int(tx[4]), int(tx[5]), int(tx[6]))
+    got = (nodes_real, cut, len(rec.log) - cut, 0)
+    if want != got:
+        ctx.disagree(case, "report differs (node set of the returned object, draws of the source loop, of the target "
+                           f"loop, unused draws): implementation {got}, model {want}")
         return None
     if ctx.rng.random() < 0.05:
         f = lambda v: 3 * v + (v * v) % 3 + 1   # noqa: E731 - strictly increasing
